@@ -271,3 +271,10 @@ pub fn result_void<P: Proto, const W: u8>() {
     core::mem::forget(r);
     core::mem::forget(b);
 }
+
+/// typedef of an enum and typedef of a typedef as field types (wire type must be the aliased one)
+#[cfg(kani)]
+pub fn aliases<P: Proto, const W: u8>() {
+    let v = tb::Aliases { paint: tb::Paint(tb::Color::from(kani::any::<i32>())), account: Some(tb::AccountId(tb::Id(kani::any()))), plain: Some(kani::any()) };
+    roundtrip::<P, _, W>(v, 48)
+}
